@@ -9,8 +9,10 @@ import (
 	"encoding/json"
 	"fmt"
 	"io"
+	"regexp"
 	"strings"
 	"testing"
+	"unicode/utf8"
 
 	"github.com/titpetric/vuego"
 	xhtml "golang.org/x/net/html"
@@ -93,10 +95,19 @@ func expectedSource(c Case) string {
 			s = strings.ReplaceAll(s, ` :`+attr+`="`+name+`"`, ` `+attr+`="`+esc+`"`)
 			s = strings.ReplaceAll(s, ` v-bind:`+attr+`="`+name+`"`, ` `+attr+`="`+esc+`"`)
 		}
+		if strings.HasPrefix(esc, "\n") {
+			// directly after <pre> / <textarea> a parser drops one newline: the expected
+			// text is neighbours + value, so the expectation spells the value's newline twice
+			s = preHole(name).ReplaceAllString(s, "${1}\n{{ "+name+" }}")
+		}
 		s = strings.ReplaceAll(s, "{{ "+name+" }}", esc)
 		s = strings.ReplaceAll(s, "{{"+name+"}}", esc)
 	}
 	return s
+}
+
+func preHole(name string) *regexp.Regexp {
+	return regexp.MustCompile(`(<(?:pre|textarea)(?:\s[^>]*)?>)\{\{ ` + name + ` \}\}`)
 }
 
 func parse(s string, doc bool) ([]*hx.N, error) {
@@ -435,9 +446,39 @@ func (g *gctx) block(depth int) string {
 			// markup when scripting is off (how hx parses): fallback elements inside
 			return "<noscript>" + g.inline(depth-1) + g.pick("nsx", "", `<img src="p.gif?a=1&amp;b=2" alt="">`, "<p>no js</p>") + "</noscript>"
 		case "pre":
-			return "<pre>" + g.pick("pre", "a  b", "  indented\n    more", "x &lt; y", "line1\nline2", "tab\there") + "</pre>"
+			if rapid.Bool().Draw(g.t, "prerich") {
+				// preformatted text with inline elements: every blank and line break is content
+				var sb strings.Builder
+				sb.WriteString("<pre" + g.attrs() + ">")
+				sb.WriteString(g.pick("prelead", "", "", "\n", "\n\n", "  "))
+				k := rapid.IntRange(1, 5).Draw(g.t, "prek")
+				for i := 0; i < k; i++ {
+					switch rapid.IntRange(0, 5).Draw(g.t, "prepart") {
+					case 0:
+						sb.WriteString(g.pick("prews", " ", "\n", "\n  ", "  ", "\t", "\n\n"))
+					case 1:
+						sb.WriteString(g.pick("pretxt", "a  b", "x &lt; y", "line1\nline2", "if (a &amp;&amp; b) { x", "} "))
+					case 2:
+						sb.WriteString("<span class=\"k\">" + g.pick("prekw", "func", "return  x", "a\n  b") + "</span>")
+					case 3:
+						sb.WriteString("<code>" + g.pick("precode", "x\n  y", "<b>z</b> w", " ") + "</code>")
+					case 4:
+						sb.WriteString("<b>" + g.pick("preb", "d", " d ", "") + "</b><i>e</i>")
+					default:
+						if name, ok := g.hole(); ok {
+							g.holes.Data[name] = vals.Str(g.pick("prehv", "v1", "\nline", "two\n  lines", " <x> ", "a&b"))
+							sb.WriteString("{{ " + name + " }}")
+						} else {
+							sb.WriteString("<em><strong>n</strong> m</em>")
+						}
+					}
+				}
+				sb.WriteString("</pre>")
+				return sb.String()
+			}
+			return "<pre>" + g.pick("pre", "a  b", "  indented\n    more", "x &lt; y", "line1\nline2", "tab\there", "\n\nblank first line", "\nfirst") + "</pre>"
 		case "textarea":
-			return `<textarea name="t">` + g.pick("ta", "a  b", "x &lt; y &amp; z", "line1\n  line2", "&lt;/textarea&gt;") + "</textarea>"
+			return `<textarea name="t">` + g.pick("ta", "a  b", "x &lt; y &amp; z", "line1\n  line2", "&lt;/textarea&gt;", "\n\nblank first line", "\nfirst") + "</textarea>"
 		case "script":
 			return "<script>" + g.pick("js", "var a = 1 < 2 && 3 > 2;", `var s = "<b>&amp;</b>";`, "if (a<b) { x = '&'; }", "let x = 1;\n  let y = 2;") + "</script>"
 		default:
@@ -508,6 +549,8 @@ func classify(c Case) (bool, []string) {
 	mark(strings.Contains(s, "&amp;amp;") || strings.Contains(s, "&amp;lt;") || strings.Contains(s, "&#38;"), "double-escaped-looking")
 	mark(strings.Contains(s, "<img") || strings.Contains(s, "<hr") || strings.Contains(s, "<input") || strings.Contains(s, "<wbr") || strings.Contains(s, "<br"), "void-element")
 	mark(strings.Contains(s, "<script") || strings.Contains(s, "<style") || strings.Contains(s, "<textarea") || strings.Contains(s, "<pre"), "raw-text-element")
+	mark(strings.Contains(s, "<pre") && (strings.Contains(s, "<span class=\"k\">") || strings.Contains(s, "<code>")), "pre-with-elements")
+	mark(strings.Contains(s, "<pre>\n") || strings.Contains(s, "<textarea name=\"t\">\n"), "pre-leading-newline")
 	mark(strings.Contains(s, "<table"), "table")
 	mark(c.Doc, "document")
 	mark(strings.Contains(strings.ToLower(s), "<!doctype"), "doctype")
@@ -546,6 +589,8 @@ var corpus = []Case{
    this</pre><textarea name="t">a  b</textarea>`, Entry: "string"},
 	{Source: `<script>if (a<b && c>d) { s = "&amp;"; }</script><style>a > b { content: "<" }</style>`, Entry: "string"},
 	{Source: `<a href="/q?a=1&amp;b=2&amp;copy=3">x</a>`, Entry: "string"},
+	{Source: "<pre>a <span>b</span> c\n  <b>d</b><i>e</i>\nf</pre><div><pre><code>x\n  y</code> <em><strong>q</strong>r</em>s</pre></div>", Entry: "string"},
+	{Source: "<pre>\n\nblank first</pre><textarea name=\"t\">\n\nblank first</textarea><pre>{{ h1 }}</pre>", Entry: "string", Data: map[string]vals.V{"h1": vals.Str("\nline")}},
 	{Source: `<noscript><img src="x.png" alt=""><p>enable &amp; reload</p></noscript><xmp><b>bold</b> &amp; x</xmp><iframe src="/f"><p>fallback</p></iframe>`, Entry: "string"},
 	{Source: `<input placeholder="line one&#13;&#10;line &quot;two&quot;" title="a&#9;b"><p title="v: {{ h1 }}">x</p>`, Entry: "string", Data: map[string]vals.V{"h1": vals.Str("one\r\ntwo")}},
 	{Source: `<!DOCTYPE html PUBLIC "-//W3C//DTD XHTML 1.0 Strict//EN" "http://www.w3.org/TR/xhtml1/DTD/xhtml1-strict.dtd"><html><head><title>t</title></head><body><p>x</p></body></html>`, Doc: true, Entry: "load"},
@@ -579,3 +624,94 @@ func TestProp(t *testing.T) {
 }
 
 func TestReplay(t *testing.T) { run.ReplayMain(t, prop, replay) }
+
+// directiveFree: the source, as the HTML5 parser reads it, has no directive, binding, mustache,
+// component, slot or template element - the domain of the static part of the property.
+func directiveFree(src string, doc bool) bool {
+	if strings.Contains(src, "{{") || strings.HasPrefix(strings.TrimSpace(src), "---") {
+		return false
+	}
+	var nodes []*xhtml.Node
+	var err error
+	if doc {
+		nodes, err = hx.ParseDoc(src)
+	} else {
+		nodes, err = hx.ParseFragment(src)
+	}
+	if err != nil {
+		return false
+	}
+	ok := true
+	var walk func(n *xhtml.Node)
+	walk = func(n *xhtml.Node) {
+		if n.Type == xhtml.ElementNode {
+			switch n.Data {
+			case "template", "slot", "plaintext", "frameset", "frame":
+				ok = false
+			}
+			switch n.Data {
+			case "xmp", "iframe", "noembed", "noframes", "script", "style", "textarea", "title":
+				// a raw text body that contains "</" only arises from a template that ends
+				// inside an unterminated end tag; not a document anyone writes
+				for c := n.FirstChild; c != nil; c = c.NextSibling {
+					if c.Type == xhtml.TextNode && strings.Contains(c.Data, "</") {
+						ok = false
+					}
+				}
+			}
+			if strings.Contains(n.Data, "-") || n.Namespace != "" {
+				ok = false // custom elements may be component shorthands; foreign content is not in the vocabulary
+			}
+			for _, a := range n.Attr {
+				if strings.HasPrefix(a.Key, "v-") || strings.HasPrefix(a.Key, ":") || strings.HasPrefix(a.Key, "@") || strings.HasPrefix(a.Key, "#") || strings.HasPrefix(a.Key, "[") || a.Key == "include" {
+					ok = false
+				}
+			}
+		}
+		for c := n.FirstChild; c != nil && ok; c = c.NextSibling {
+			walk(c)
+		}
+	}
+	for _, n := range nodes {
+		walk(n)
+	}
+	return ok
+}
+
+// FuzzFaithful: native coverage-guided fuzzing of directive-free template source (thorough tier).
+func FuzzFaithful(f *testing.F) {
+	for i, c := range corpus {
+		if len(c.Data) == 0 {
+			f.Add(c.Source, uint8(i))
+		}
+	}
+	f.Add(`<table><caption>c &amp; d</caption><colgroup><col span="2"></colgroup><tr><td>1<td>2</table>`, uint8(0))
+	f.Add(`<select name="s"><optgroup label="g &quot;1&quot;"><option value="a&amp;b" selected>A</option></optgroup></select>`, uint8(1))
+	f.Add(`<dl><dt>t<dd>d</dl><details open><summary>s</summary>x</details><p>a<span>b</span> c <em> d </em>e</p>`, uint8(2))
+	f.Add(`<ul><li>1<li>2<ul><li>3</ul></ul><form action="/a?b=1&amp;c=2"><label for="i">l</label><input id="i" value="&lt;v&gt;"><button type="submit">go</button></form>`, uint8(3))
+	noBr := kf.Load().Open("C02-br-end-tag")
+	rec := ev.New(prop)
+	f.Fuzz(func(t *testing.T, src string, sel uint8) {
+		if !utf8.ValidString(src) || strings.ContainsAny(src, "\x00\r\f") || len(src) > 400 {
+			t.Skip()
+		}
+		doc := strings.Contains(src, "</html>")
+		if noBr && strings.Contains(strings.ToLower(src), "<br") || strings.Contains(strings.ToLower(src), "</br") {
+			t.Skip()
+		}
+		if !directiveFree(src, doc) {
+			t.Skip()
+		}
+		c := Case{Source: src, Doc: doc}
+		if doc {
+			c.Entry = entriesDoc[int(sel)%len(entriesDoc)]
+		} else {
+			c.Entry = entriesFrag[int(sel)%len(entriesFrag)]
+		}
+		if err := run.Safe(func() error { return checkStable(c) }); err != nil {
+			rec.Fail("fuzz", c, err)
+			rec.Finish()
+			t.Fatalf("%+v: %v", c, err)
+		}
+	})
+}
